@@ -6,7 +6,7 @@
    numbat/modules/**/*.nbt on every run (Gen/ModuleGraph.v). *)
 From Coq Require Import List String Permutation.
 From NV Require Import Session.Resolver Session.ResolverProofs Session.ImportProofs
-     Session.ImportExec Session.ImportExecProofs Gen.ModuleGraph.
+     Session.ImportExec Session.ImportExecProofs Session.ScopeOrder Session.ScopeOrderExec Gen.ModuleGraph.
 Import ListNotations.
 Local Open Scope list_scope.
 
@@ -152,6 +152,37 @@ Theorem C17_stdlib_defs_available :
     forall d, In d out -> ok_str (fun x => In x out) d.
 Proof. exact (table_defs_available stdlib C17_table_closed). Qed.
 
+(* ORDER (phase 2): on a closed and ACYCLIC table every statement of the inlined
+   program is well-scoped in what comes BEFORE it — the earlier part of the output
+   and the modules imported earlier — for every import order; so the depth-first
+   de-duplicated pass never puts a user in front of its provider. *)
+Theorem C17_scoped_in_order :
+  forall (M : Type) (M_eqb : M -> M -> bool), (forall a b, M_eqb a b = true <-> a = b) ->
+  forall (Code S : Type) (importer : M -> option Code) (parse : Code -> option (list (stmt M S)))
+         (ok : (S -> Prop) -> S -> Prop),
+    (forall (E E' : S -> Prop) s, (forall x, E x -> E' x) -> ok E s -> ok E' s) ->
+    (forall m q, body M Code S importer parse m = Some q -> ~ reach M Code S importer parse (uses M S q) m) ->
+    (forall m q, body M Code S importer parse m = Some q ->
+                 closed_rel M Code S importer parse ok (fun _ => False) q) ->
+    forall fuel r p r' out,
+      closed_except M Code S importer parse [] r -> NoDup (imported M Code r) ->
+      inlining_pass M M_eqb Code S importer parse fuel r p = (r', ROk out) ->
+      closed_rel M Code S importer parse ok (fun m => In m (imported M Code r)) p ->
+      forall o1 s o2, out = o1 ++ s :: o2 ->
+        ok (fun x => (exists m, In m (imported M Code r) /\ In x (own_of M Code S importer parse m)) \/ In x o1) s.
+Proof. exact scoped_in_order. Qed.
+
+(* the real graph: in any sequence of imports into a fresh session, every identifier
+   used by an inlined definition is a name of that definition or of a definition
+   inlined BEFORE it *)
+Theorem C17_stdlib_scoped_in_order :
+  forall ms r1 out,
+    import_seq stdlib ms = (r1, ROk out) ->
+    forall o1 d o2, out = o1 ++ d :: o2 -> ok_str (fun x => In x o1) d.
+Proof. exact (table_scoped_in_order stdlib C17_table_closed C17_table_acyclic). Qed.
+
+Print Assumptions C17_scoped_in_order.
+Print Assumptions C17_stdlib_scoped_in_order.
 Print Assumptions C17_defs_available.
 Print Assumptions C17_stdlib_defs_available.
 Print Assumptions C17_once.
